@@ -144,18 +144,20 @@ def all_props():
     return sorted(os.path.basename(f)[:-2] for f in glob.glob(os.path.join(COQ, "Props", "C*.v")))
 
 
-def build_for(prop):
-    """Everything ./check <prop> needs, rebuilt from the current /repo."""
+def build_for(prop, driver_prop=None):
+    """Everything ./check <prop> needs, rebuilt from the current /repo.
+    driver_prop: property whose extraction/driver is shared (e.g. the stream core's C01)."""
+    dp = driver_prop or prop
     with Lock():
         gen_consts()
         scan_forbidden()
         targets = ["Props/%s.vo" % prop]
-        ext = os.path.join(COQ, "Extract", "%s_extract.v" % prop)
+        ext = os.path.join(COQ, "Extract", "%s_extract.v" % dp)
         if os.path.exists(ext):
-            targets.append("Extract/%s_extract.vo" % prop)
+            targets.append("Extract/%s_extract.vo" % dp)
         coq_make(targets)
         if os.path.exists(ext):
-            return build_driver(prop)
+            return build_driver(dp)
     return None
 
 
